@@ -11,13 +11,25 @@ _units = [{"name": "oracle", "src": ["c07_selftest.cpp"], "variant": "asan",
 for _ct in _CT:
     _cfg = {"mix_" + _ct: {"quick": 1500, "thorough": 50000}, "long_" + _ct: {"quick": 150, "thorough": 5000},
             "churn_" + _ct: {"quick": 800, "thorough": 25000},
-            "insonly_" + _ct: {"quick": 200, "thorough": 5000}}
+            "insonly_" + _ct: {"quick": 200, "thorough": 5000},
+            "edgeval_" + _ct: {"quick": 150, "thorough": 4000},
+            "wide_" + _ct: {"quick": 8, "thorough": 250},
+            "vlong_" + _ct: {"quick": 3, "thorough": 80}}
     if _ct == "NAIVE_VECTOR":
         _cfg["exh3_" + _ct] = {"quick": _EXH_PREFIXES["quick"], "thorough": _EXH_PREFIXES["thorough"]}
     else:
         _cfg["exh3_" + _ct] = {"quick": 0, "thorough": _EXH_PREFIXES["thorough"]}
     _units.append({"name": "ct_" + _ct.lower(), "src": ["c07_main.cpp"], "variant": "asan",
                    "defs": ["C07_CT=" + _ct] + (["C07_KEY64"] if _ct in _KEY64 else []), "configs": _cfg, "chunk": 5})
+# other option types (config names carry the tag): Filtration_value = int (first value 0 in 1/3 of the sequences), and
+# Filtration_value = float with Dimension = short, Internal_key = long long, Cell_key = std::string
+for _name, _ct, _tag, _defs in (("fv_int", "VECTOR", "_int", ["C07_FV=int"]),
+                                ("fv_float_types", "INTRUSIVE_SET", "_float_types", ["C07_FV=float", "C07_TYPES"])):
+    _sfx = _ct + _tag
+    _units.append({"name": _name, "src": ["c07_main.cpp"], "variant": "asan", "defs": ["C07_CT=" + _ct, "C07_TAG=" + _tag] + _defs,
+                   "configs": {"mix_" + _sfx: {"quick": 400, "thorough": 12000}, "churn_" + _sfx: {"quick": 150, "thorough": 5000},
+                               "insonly_" + _sfx: {"quick": 50, "thorough": 1500}, "edgeval_" + _sfx: {"quick": 150, "thorough": 4000},
+                               "long_" + _sfx: {"quick": 30, "thorough": 1000}}, "chunk": 5})
 # gcc ASan+UBSan build of the default column type (thorough only)
 _units.append({"name": "g_naive_vector", "src": ["c07_main.cpp"], "variant": "gasan", "defs": ["C07_CT=NAIVE_VECTOR"], "tiers": ["thorough"],
                "configs": {"mix_NAIVE_VECTOR": {"thorough": 30000}}, "chunk": 50})
@@ -34,6 +46,14 @@ _FLOORS_Q = {"arrow.fwd_birth": 100000, "arrow.fwd_death": 75000, "arrow.bwd_dea
              "cmp.zp.streamed": 400000, "cmp.zp.open": 400000, "cmp.fz.streamed": 300000, "cmp.fs.index_diagram": 600000,
              "cmp.fs.diagram": 600000, "cmp.fs.value_from_index": 7000000, "cmp.insertion_only.zp_reduce": 800,
              "selftest.documented": 2, "selftest.insonly": 400, "selftest.random": 400,
+             # value sequences of the filtered classes (edgeval configs, int / float units), canary runs of the storage class
+             "seq.values.first_value=+inf": 200, "seq.values.first_value=+inf,constant": 120, "seq.values.first_value=0,integral_values": 140,
+             "seq.values.first_value=0,integral_values,constant": 15, "seq.values.values=to+inf": 120, "seq.values.values=from-inf": 60,
+             "seq.values.values=all-inf": 55, "seq.values.values=to-inf": 60, "seq.values.values=to_0": 15, "fs.canary": 1000,
+             # boundary containers of the filtered classes, remove_cell of an unknown key as identity (storage class, no ignored dimension)
+             "bd.list": 140000, "bd.set": 140000, "bd.init_list": 140000, "bd.vector": 140000, "fs.remove_unknown_key.all_dims": 10000,
+             # wide: cases with >= 16 / >= 24 one-dimensional classes alive at once; vlong: >= 300 operations, >= 3 growth periods
+             "seq.b1_ge16": 30, "seq.b1_ge24": 15, "seq.ops_ge300": 20, "seq.swings_ge3": 12,
              "_distinct_nontrivial": 8000}
 _FLOORS_T = {k: 12 * v for k, v in _FLOORS_Q.items() if not k.startswith("selftest.")}
 _FLOORS_T.update({"selftest.documented": 2, "selftest.insonly": 10000, "selftest.random": 10000})
@@ -44,14 +64,29 @@ SPEC = {
     "property": "C07",
     "rule": "one case = one model-generated zigzag history (mix: 5-28 operations, long: 29-60, churn: 20-48 operations that first insert most "
             "vertices of a graph-like universe and then insert / remove edges and 2-cells around a plateau so that many classes of one "
-            "dimension are alive at once, insonly: 4-34 insertions and identities) over a universe of <= 41 cells: all simplices of dimension <= 1..3 on 3-7 vertices, 2x2 / 3x1 square grids, the solid cube, "
+            "dimension are alive at once, insonly: 4-34 insertions and identities, edgeval: 5-28 operations with special value sequences, "
+            "wide: 70-130 operations over a graph with 10 vertices, 40 edges and 9 triangles - all vertices, 24-38 edges, then edges and "
+            "triangles in and out - so that up to 31 one-dimensional classes are alive at once, vlong: 300-1000 operations in growth / "
+            "shrinking periods of 20-80 operations during which the complex fills up and empties several times) "
+            "over a universe of <= 41 cells (wide: 59): all simplices of dimension <= 1..3 on 3-7 vertices, 2x2 / 3x1 square grids, the solid cube, "
             "polygonal 'pillows' (k-gons glued on a k-cycle with 3-cells between them) and a small non-regular CW complex (loops with empty "
             "Z_2 boundary, a bigon, 2-cells whose attaching map cancels mod 2). Operations: insert a cell whose faces are present, remove a "
             "cell nothing contains, identity; phases of growth / plateau / shrinking, remove-then-reinsert bias, bias towards removing a "
             "cell that lies on a cycle and towards old cells. The same history drives Zigzag_persistence (boundaries as arrow numbers), "
-            "Filtered_zigzag_persistence (arbitrary non-consecutive / sparse / fresh-per-insertion / 64-bit keys, shuffled boundaries, "
+            "Filtered_zigzag_persistence (arbitrary non-consecutive / sparse / fresh-per-insertion / 64-bit keys, shuffled boundaries "
+            "passed in turn as std::vector / std::list / std::set / braced initializer list, "
             "monotone dyadic values with plateaus, 1/5 decreasing) and Filtered_zigzag_persistence_with_storage twice "
-            "(ignoreCyclesAboveDim = -1 and a random 0..4), one binary per internal column type with row access (8). After EVERY operation: "
+            "(ignoreCyclesAboveDim = -1 and a random 0..4; half of the identity steps are delivered as remove_cell of a key no cell has, "
+            "which is documented to only advance the operation count), one binary per internal column type with row access (8). "
+            "Value sequences (edgeval configs): +infinity for the first operations and then decreasing finite values, +infinity throughout, "
+            "increasing and ending at +infinity, and the mirror images with -infinity; equal infinite values make a zero-length bar. "
+            "Two further binaries instantiate other option types: Filtration_value = int (even integers, odd thresholds; 1/3 of the "
+            "sequences start at the value 0, edgeval: start at / stay at / arrive at 0) and Filtration_value = float together with "
+            "Dimension = short, Internal_key = long long, Cell_key = std::string. "
+            "When the first value supplied to the storage class is +infinity (floating types) or 0 (integral types) the operations and "
+            "queries are first replayed in a forked child process: if the child dies (sanitizer report / signal) the case is one violation "
+            "fs.value_from_index 'lookup_dies,...,first_value=...', otherwise the normal comparison follows in-process. "
+            "After EVERY operation (storage class in histories of >= 200 operations: after every 7th and the last): "
             "the intervals streamed during that operation, the open intervals (get_current_infinite_intervals), the index diagram, "
             "get_filtration_value_from_index of every index in it, and get_persistence_diagram (random shortestInterval / includeInfiniteBars, "
             "and the default call) are compared as multisets with the interval decomposition computed by zigzag_ranks.h for the whole "
@@ -63,11 +98,20 @@ SPEC = {
     "assumptions": [
         "interval convention (class documentation): K_i = complex after operation i; (dim, b, d) = alive in K_b..K_{d-1}; operations are numbered from 0",
         "boundaries passed to Zigzag_persistence are sorted by arrow number (documented precondition); cells are only inserted when their faces "
-        "are present and removed when nothing contains them; keys of present cells are distinct; values are monotone, finite and dyadic",
+        "are present and removed when nothing contains them; keys of present cells are distinct; values are monotone and dyadic "
+        "(or +-infinity, or even integers for the integral Filtration_value); NaN values are not supplied",
+        "the zigzag objects are not copied or moved once operations have been fed (their internal callbacks capture `this`); not exercised",
+        "remove_cell of a key that is not in the complex is only used on Filtered_zigzag_persistence_with_storage, where it is documented as "
+        "an identity step (the streaming class documents the key as a precondition)",
         "with decreasing values the filtered classes may deliver (birth, death) in either orientation; with non-decreasing values birth <= death is required",
-        "shortestInterval is never equal to a bar length (documentation says 'shorter than' is dropped, the code drops 'not longer than'); "
+        "shortestInterval is never equal to a bar length (documentation says 'shorter than' is dropped, the code drops 'not longer than': "
+        "lengths are multiples of 1/4 and thresholds odd multiples of 1/8, resp. even and odd integers); "
         "for the default 0 zero-length bars must be dropped as the property states",
         "ignoreCyclesAboveDim = m: intervals of dimension >= m are not reported (documentation of the constructor)",
+        "an open bar of the storage class has death = Persistence_interval::inf (+infinity, -1 for an integral Filtration_value: never a supplied "
+        "value, those are even); a finite bar whose death VALUE is +infinity is written the same way and compared as such",
+        "at most 32 classes of one dimension are alive at once (representation limit of zigzag_ranks.h; the wide universe reaches 31); "
+        "option types other than the instantiated ones (unsigned Filtration_value, long double, ...) are not exercised",
         "trusted: zigzag_ranks.h (validated in the same run on the documented example, the repo's 29-step test sequence, against zp_reduce.h "
         "on insertion-only sequences, and by an internal second formula for every window), zp_reduce.h, z2_linalg.h, libstdc++",
     ],
@@ -81,14 +125,16 @@ SPEC = {
     "manifest": {
         "text": "Runtime monitor under ASan+UBSan: tens of thousands of model-generated zigzag histories (simplicial, cubical, polygonal and "
                 "non-regular CW cells; removals, re-insertions, identity steps, plateaus) drive Zigzag_persistence, Filtered_zigzag_persistence and "
-                "Filtered_zigzag_persistence_with_storage for each of the 8 internal column types; after every single operation the streamed "
+                "Filtered_zigzag_persistence_with_storage for each of the 8 internal column types (plus int and float Filtration_value, short / "
+                "long long / std::string option types, value sequences containing +-infinity or starting at 0, boundaries given as vector / list / "
+                "set / braced list, histories of up to 1000 operations, up to 31 simultaneous 1-classes); after every single operation the streamed "
                 "intervals, the open intervals, the index diagram, the index->value translation and the value diagram (thresholds, ignored "
                 "dimensions, infinite bars) are compared as multisets with an independent rank-based interval decomposition of the zigzag "
                 "homology module (limit->colimit ranks of every window, inclusion-exclusion; no diamond or transposition step), insertion-only "
                 "histories also with a textbook column reduction. Every valid sequence of length <= 7 over the full triangle is enumerated. "
                 "Held on what was observed, not a proof.",
         "note": "trusted: harness/c07_zigzag/zigzag_ranks.h (self-validated each run), oracle/zp_reduce.h; Z_2 only (the class supports nothing else); "
-                "documented preconditions respected (sorted boundaries, monotone finite values, faces-first insertion, maximal-cell removal)",
+                "documented preconditions respected (sorted boundaries, monotone values, faces-first insertion, maximal-cell removal)",
         "technique": "runtime monitoring: randomized + enumerated operation histories, independent rank-based oracle after every step, under "
                      "AddressSanitizer/UBSan",
     },
